@@ -174,7 +174,13 @@ let distinct_ranks tbl =
   let rs = List.map snd tbl in
   List.length (List.sort_uniq compare rs) = List.length rs
 
+let next_reqctx c =
+  let kind = next c in
+  let after = int_of_z (next_z c) in
+  (kind, if kind = "live" then None else Some (nat_of_int after))
+
 let handle_chart_case c =
+  let (ctx_kind, ctx_after) = next_reqctx c in
   let cfg = next_config c in
   let semtbl = next_table c in
   let gotbl = next_table c in
@@ -206,7 +212,7 @@ let handle_chart_case c =
   let reports = List.concat (List.map snd days) in
   let missing = List.exists (fun (p, _) -> not p) days in
   (* ---- model vs implementation *)
-  (match handle_chart iter_id lt_sem lt_go cfg read start end_ with
+  (match handle_chart_ctx iter_id lt_sem lt_go ctx_after cfg read start end_ with
    | ChartOk (name, cd) ->
      (match impl_cd with
       | Some (iname, icd) when status = "ok" ->
@@ -230,7 +236,9 @@ let handle_chart_case c =
     match impl_cd with
     | Some (_, icd) when status = "ok" ->
       if int_of_nat icd.cd_num <> List.length reports then
-        prop "num-reports" (Printf.sprintf "%d reports merged in the range, NumReports=%d" (List.length reports) (int_of_nat icd.cd_num))
+        prop "num-reports" (Printf.sprintf "%d reports merged in the range, NumReports=%d%s" (List.length reports) (int_of_nat icd.cd_num)
+                              (if ctx_kind = "live" then "" else Printf.sprintf " (request context: %s once %d objects had been opened; the handler answered ok)"
+                                   ctx_kind (match ctx_after with Some k -> int_of_nat k | None -> 0)))
       else if not (chart_ok lt_sem lt_go cfg (fmt_date start) (fmt_date end_) reports icd) then begin
         let bad = List.filter (fun (p, o) ->
             not (programs_ok lt_sem lt_go cfg reports [p] [o]))
@@ -329,6 +337,8 @@ let handle_seq c =
           prop "read-all" (Printf.sprintf "op %d: %d reports stored and merged, read back: %s %d" opi n rtag (List.length read_reps))
       end
     | "chart" ->
+      let (ctx_kind, ctx_after) = next_reqctx c in
+      ignore ctx_after;
       let start = next_z c in
       let end_ = next_z c in
       let status = next c in
@@ -359,7 +369,7 @@ let handle_seq c =
           | None -> prop "rechart-replaces" (Printf.sprintf "op %d: the chart object written is not one JSON chart (%s)" opi tag)
           | Some (_, icd) ->
             if int_of_nat icd.cd_num <> List.length reports then
-              prop "num-reports" (Printf.sprintf "op %d: %d reports in the merged objects of the range, NumReports=%d" opi (List.length reports) (int_of_nat icd.cd_num))
+              prop "num-reports" (Printf.sprintf "op %d: %d reports in the merged objects of the range, NumReports=%d (request context %s)" opi (List.length reports) (int_of_nat icd.cd_num) ctx_kind)
             else if not (chart_ok lt_sem lt_go cfg (fmt_date start) (fmt_date end_) reports icd) then
               prop "partition-value" (Printf.sprintf "op %d: %s" opi (clip (show_cd icd)))
       end
